@@ -21,7 +21,7 @@ DECIDED = [
     "COVER: the sliced element swap exchanges all item_size bytes",
     "SHAPE: every linked-list operation has its documented sequence effect in every alias configuration (forward and backward traversals mirror, removed nodes detached, untouched lists unchanged)",
 ]
-NOT_DECIDED = ["qsort; element byte contents beyond which range was moved; histories of operations (each operation is decided in isolation from an arbitrary valid state)"]
+NOT_DECIDED = ["qsort itself (its arguments are decided: RANGE/sort); element byte contents beyond which range was moved; histories of operations (each operation is decided in isolation from an arbitrary valid state)"]
 ASSUMPTIONS = list(LIB_ASSUMPTIONS) + ["linked-list arguments satisfy the documented preconditions (nodes are in a well-formed list; the node to insert is not in a list)"]
 
 VAL = ("field", "list", "aws_array_list", "item_size")
@@ -272,6 +272,7 @@ def analyse(ctx, replace=None, only=None):
     R.require(n_seq >= 12, "only %d SEQ-LEN return states checked" % n_seq)
     static_mode(R, fns)
     copy_rule(R, P)
+    sort_rule(R, P)
     # ---------------------------------------------------------------- linked list
     n_cases = [0]
 
@@ -312,6 +313,26 @@ def _tracked(fn, n):
         if x["k"] == "var" and fn.unit.types[x["t"]].get("arr") is not None:
             return True
     return False
+
+
+def sort_rule(R, P):
+    """RANGE/sort: the library sort is handed the list's own geometry: storage, element count, element size (its
+    comparator receives pointers into the storage, item_size bytes apart), and only when there is storage"""
+    f = P.fn("aws_array_list_sort")
+    if not R.require(f is not None, "aws_array_list_sort not found"):
+        return
+    R.fn(f)
+    q = f.calls("qsort")
+    if not R.require(len(q) == 1, "aws_array_list_sort: %d qsort calls" % len(q)):
+        return
+    a = [f.show(RU.uncast(f, x), alias=True) for x in q[0].node["a"]]
+    cnt = RU.uncast(f, RU.arg(f, q[0].node, 1))
+    cnt_ok = a[1] == "list->length" or (cnt is not None and cnt["k"] == "call" and cnt.get("callee") == "aws_array_list_length" and argstr(f, cnt, 0, addr=False) == "list")
+    ok = a[0] == "list->data" and cnt_ok and a[2] == "list->item_size" and a[3] == "compare_fn"
+    R.check(ok, "RANGE", "sort:geometry", where(f, q[0]), "qsort(list->data, length, list->item_size, compare_fn)",
+            "aws_array_list_sort hands qsort (%s): the element stride / count is not the list's own, so elements of any other size are torn apart or compared at the wrong addresses" % ", ".join(a))
+    gs = [f.show(c_) for c_, p_, b_ in RU.guards(f, q[0]) if p_]
+    R.check(any("list->data" in g_ for g_ in gs), "RANGE", "sort:only-with-storage", where(f, q[0]), "sorted only when the list has storage")
 
 
 def static_mode(R, fns):
@@ -359,6 +380,7 @@ def copy_rule(R, P):
 
 
 MUTANTS = [
+    {"name": "sort-pointer-stride", "file": AL, "expect": "RANGE", "old": "qsort(list->data, aws_array_list_length(list), list->item_size, compare_fn);", "new": "qsort(list->data, aws_array_list_length(list), sizeof(void *), compare_fn);"},
     {"name": "shrink-of-empty-keeps-capacity", "file": AL, "expect": "INV", "old": "                aws_mem_release(list->alloc, list->data);\n            }\n            list->data = raw_data;\n            list->current_size = ideal_size;", "new": "                aws_mem_release(list->alloc, list->data);\n                list->current_size = ideal_size;\n            }\n            list->data = raw_data;"},
     {"name": "copy-of-empty-keeps-old-length", "file": AL, "expect": "SEQ-LEN", "old": "            memcpy(to->data, from->data, copy_size);\n        }\n        to->length = from->length;", "new": "            memcpy(to->data, from->data, copy_size);\n            to->length = from->length;\n        }"},
     {"name": "ensure-capacity-compares-index", "file": AL, "expect": "POST",
